@@ -321,11 +321,11 @@ pub fn run(tier: Tier, seed: u64, findings: &Findings) -> i32 {
     let cfg = RunCfg { prop: "C15", tier, seed };
     let check = C15;
     let mut report = super::run_regress(&check, &cfg, findings);
-    let cases = tier.pick(5000, 250_000);
+    let cases = tier.pick(30_000, 800_000);
     report.merge(engine::run_generated(&check, &cfg, cases, 8, 16, findings, 0));
     // (iii) locations over C01's input stream, in isolated children
     let loc = c01::C01 { cfg: gen::wxml::WxmlCfg::new(2, 3), locations: true, prop: "C15" };
-    let cases = tier.pick(4000, 200_000);
+    let cases = tier.pick(20_000, 600_000);
     let mut r = engine::run_generated(&loc, &cfg, cases, 8, 16, findings, 1);
     r.extra.insert("location_stream_cases".into(), json!(r.evaluations));
     report.merge(r);
